@@ -168,6 +168,16 @@ def _run_tv_one(args):
         mm = re.search(r"REJECTED-AT (\d+)", line)
         if mm:
             r["rejected_at"] = int(mm.group(1))
+    # an EVALUATION error of TLC while it judges an event (a recorded value of an unexpected shape,
+    # a function applied outside its domain, ...) is a rejection of that event: the position is the
+    # value of l in the last state of the printed behaviour.  Resource failures stay tool errors.
+    if (not timed_out and r["rejected_at"] is None and "The behavior up to this point is" in out
+            and "StackOverflow" not in out and "OutOfMemory" not in out):
+        ls = re.findall(r"^/\\ l = (\d+)", out, re.M)
+        msg = [x.strip() for x in out.splitlines() if x.strip().startswith(("Attempted", ": Attempted", "Error: Attempted")) or "RuntimeException" in x or "evaluating" in x][:2]
+        if ls:
+            r["rejected_at"] = int(ls[-1])
+            r["mismatch"].append("MISMATCH [%s,\"spec-evaluation-error\",%s]" % (ls[-1], json.dumps(" | ".join(msg))[:400]))
     if timed_out:
         r["tool_error"] = "timeout"
     elif "Model checking completed. No error has been found." in out and r["rejected_at"] is None:
